@@ -86,4 +86,19 @@ var props = []Prop{
 		Stubs:       []string{"regexp.ReplaceAllString([^a-zA-Z0-9], \"_\") -> contract derived from the pattern (DESIGN 3.5)"},
 		Assumptions: commonAssumptions,
 	},
+	{
+		ID: "C09", Level: "model_checking",
+		Harnesses: []HSpec{
+			{Dir: "internal/pkg/input", Fn: "VF_C09_ptr_attrs", Split: 4},
+			{Dir: "internal/pkg/input", Fn: "VF_C09_lists", Split: 4},
+			{Dir: "internal/pkg/input", Fn: "VF_C09_maps", Split: 6},
+			{Dir: "internal/pkg/input", Fn: "VF_C09_meta", Split: 6},
+			{Dir: "internal/pkg/input", Fn: "VF_C09_services", Split: 6},
+			{Dir: "internal/pkg/input", Fn: "VF_C09_identity"},
+		},
+		Bounds:      []string{"three inputs a,b,c; scalar attributes one at a time over all 2^3 nil-patterns with symbolic contents plus the all-present pattern; lists of <= 1 (quick) / 2 (thorough) elements; maps over a universe of two symbolic keys; two services; <= 1 decorator per file"},
+		Outside:     []string{"joint nil-patterns of several scalar attributes other than all-present", "byte-identity of the rendered file for split vs unsplit input (follows from these laws plus C08; not rendered here)", "file discovery order (glob/sort) - stubbed environment, see C10"},
+		Stubs:       []string{"none for merge"},
+		Assumptions: commonAssumptions,
+	},
 }
